@@ -273,7 +273,20 @@ func TestVerifC03(t *testing.T) {
 			op, scenario = 8, "many-early-stores"
 		}
 		afterClose := false
-		if scenario != "" {
+		if scenario == "" && i%9 == 8 && i >= 26 && i <= 161 {
+			// sixteen directed cases: optimistic provide on an already cancelled context with silent peers.
+			// The pending ADD_PROVIDERs must be cancelled with the caller's context; a select between two
+			// contexts that end together does that only half of the time, hence the repetition.
+			scenario = "precancelled-optimistic-silent-peers"
+			op = 8
+			c.cancelAt = -2
+			c.fullKnowledge = true // primes the network-size estimator (the optimistic path is taken)
+			for j := range w.peers {
+				w.peers[j].behaviour = wSilent
+			}
+		}
+		if scenario == "precancelled-optimistic-silent-peers" {
+		} else if scenario != "" {
 		} else if x := r.Intn(100); x < 28 {
 			c.cancelAt = r.Intn(3 * len(c.peers))
 		} else if x < 36 {
